@@ -41,6 +41,7 @@ STALE_VEL = ("cvel", "cdof_dot", "subtree_linvel")
 
 PROFILE = gen.profile(
   nbody=(2, 6),
+  geoms=("sphere", "capsule", "box"),  # few primitive-pair sets: bounds narrowphase kernel specialisations
   collide=True,
   contact_rich=True,
   p_plane=0.9,
@@ -66,7 +67,8 @@ def cases(tier, seed):
   n = 110 if tier == "quick" else 1400
   out = []
   for i in range(n):
-    out.append({"id": f"m{seed}_{i}", "seed": seed * 100000 + i, "sleep": i % 4 == 3, "nscen": 6, "weight": 2 if i % 4 == 3 else 1})
+    sl = i % 4 == 3
+    out.append({"id": f"m{seed}_{i}", "seed": seed * 100000 + i, "sleep": sl, "nscen": 4 if sl else 6, "weight": 2 if sl else 1})
   return out
 
 
@@ -353,6 +355,9 @@ def run_case(case):
   if mjm is None:
     rec.rejected = "mujoco compile"
     return rec.result()
+  if case["sleep"]:
+    # on the CPU device the compacted (sleep) solver runs all opt.iterations unconditionally: keep histories affordable
+    mjm.opt.iterations = 12
   try:
     m = mw.put_model(mjm)
   except (NotImplementedError, ValueError) as e:
